@@ -435,6 +435,9 @@ type objectCache struct {
 	packages map[string]*packages.Package
 	objects  map[objRef]objCacheEntry
 	hasher   typeutil.Hasher
+	// rootFiles holds the source files of the packages being analyzed (as
+	// opposed to their dependencies).
+	rootFiles map[string]bool
 }
 
 type objRef struct {
@@ -456,6 +459,13 @@ func newObjectCache(pkgs []*packages.Package) *objectCache {
 		packages: make(map[string]*packages.Package),
 		objects:  make(map[objRef]objCacheEntry),
 		hasher:   typeutil.MakeHasher(),
+
+		rootFiles: make(map[string]bool),
+	}
+	for _, p := range pkgs {
+		for _, f := range p.Syntax {
+			oc.rootFiles[oc.fset.File(f.Pos()).Name()] = true
+		}
 	}
 	// Depth-first search of all dependencies to gather import path to
 	// packages.Package mapping. go/packages guarantees that for a single
@@ -556,6 +566,12 @@ func (oc *objectCache) processExpr(info *types.Info, pkgPath string, expr ast.Ex
 	if obj := qualifiedIdentObject(info, expr); obj != nil {
 		item, errs := oc.get(obj)
 		return item, mapErrors(errs, func(err error) error {
+			if w, ok := err.(*wireErr); ok && !oc.rootFiles[w.position.Filename] {
+				// The problem lies in a dependency (or the standard library):
+				// report it where the user refers to it and mention the
+				// declaration.
+				return notePosition(exprPos, fmt.Errorf("%v (declared at %s)", w.error, w.position))
+			}
 			return notePosition(exprPos, err)
 		})
 	}
